@@ -89,6 +89,7 @@ struct H30 : hu::Harness {
     cfg.strategy = int(r.range(0, 3)); cfg.sticky_num = int(r.range(1, 3)); cfg.starve_thread = int(r.range(0, nt - 1));
     cfg.sig_linux_bias = int(bias);
     if (r.chance(1, 4)) { static const int rates[] = {2, 5, 11, 23}; cfg.alloc_rate = rates[r.range(0, 3)]; cfg.alloc_phase = int(r.range(0, 22)); }   // a share of the runs: allocations of the code under test as scheduling points
+    cfg.sigchld_ignored = r.chance(1, 5) ? 1 : 0;   // ambient dimension: the process inherited SIGCHLD ignored from whatever started it
     cfg.pid_recycle = r.chance(1, 3) ? 1 : 0;   // history dimension: the kernel hands out the pid of a reaped child again
     cfg.max_steps = 4000 + 3000 * long(p.ops.size());
     if (r.chance(1, 5)) { long n = r.range(1, 2); for (long k = 0; k < n; ++k) p.faults.push_back({vsim::F_STRAY_SIGCHLD, r.range(1, 60 * long(p.ops.size())), 0}); }
